@@ -170,6 +170,11 @@ def main_c17(tier, seed):
 
 
 # ------------------------------------------------------------------------------------------------ C16
+def empty_dataset():
+    from pydicom.dataset import Dataset
+    return Dataset()
+
+
 def find_case(rng, variant):
     from pynetdicom2 import sopclass, dimsemessages as dm, statuses
     import pynetdicom2
@@ -183,7 +188,8 @@ def find_case(rng, variant):
     msg.priority = 0
     msg.data_set = sd.encode_ds(query)
     n = rng.choice([0, 1, 2, 3, 7])
-    matches = [(sd.small_dataset(k, rng.choice([0, 30, 400])), rng.choice([0xFF00, 0xFF01])) for k in range(n)]
+    matches = [(sd.small_dataset(k, rng.choice([0, 30, 400])) if rng.random() > 0.12 else empty_dataset(),
+                rng.choice([0xFF00, 0xFF01])) for k in range(n)]
     lab.matches = [(d, statuses.Status(s, dm.CFindRSPMessage)) for d, s in matches]
     svc = sopclass.modality_work_list_scp if variant == 'worklist' else sopclass.qr_find_scp
     err = None
@@ -281,7 +287,8 @@ def find_wrapper_case(rng, root_name):
     from pynetdicom2 import applicationentity as aemod, sopclass, dimsemessages as dm, statuses
     root = sopclass.PATIENT_ROOT_FIND_SOP_CLASS if root_name == 'patient' else sopclass.STUDY_ROOT_FIND_SOP_CLASS
     n = rng.choice([0, 1, 2, 5])
-    matches = [(sd.small_dataset(k, rng.choice([0, 30, 3000])), rng.choice([0xFF00, 0xFF01])) for k in range(n)]
+    matches = [(sd.small_dataset(k, rng.choice([0, 30, 3000])) if rng.random() > 0.12 else empty_dataset(),
+                rng.choice([0xFF00, 0xFF01])) for k in range(n)]
     query = sd.small_dataset(99, rng.choice([0, 50]))
     seen = []
 
